@@ -255,7 +255,13 @@ void run_t(vf::Ctx& c)
         {
             // a random number of exactly 1 cannot come out of libstdc++'s generate_canonical, but the documented
             // work-around in the sampling code is there for libraries that do return it: construct the point directly
-            T const specials[] = {T(1), T(0), std::nextafter(T(1), T(0)), T(0.5)};
+            std::vector<T> specials = {T(1), T(0), std::nextafter(T(1), T(0)), T(0.5)};
+            // every k / bins and its neighbours: the product u * bins rounds onto an integer there
+            for (std::size_t k = 1; k < bins; ++k)
+            {
+                T const q = static_cast<T>(static_cast<long double>(k) / bins);
+                specials.push_back(q); specials.push_back(std::nextafter(q, T(0))); specials.push_back(std::nextafter(q, T(2)));
+            }
             for (T u : specials)
             {
                 for (std::size_t j = 0; j != dims; ++j)
